@@ -6,7 +6,7 @@ from ..outcome import exc_bucket, fail, inconclusive, passed
 
 ID = 'C01'
 LEVEL = 'exploration'
-CASES = {'quick': 640, 'thorough': 12000}
+CASES = {'quick': 640, 'thorough': 8000}
 CASE_TIMEOUT = 40
 TECHNIQUE = 'property-based testing (Hypothesis): generated networks simulated with WNTRSimulator, node balances ' \
             're-evaluated from the generated spec (conservation oracle) and an independent demand-pattern evaluator'
